@@ -44,6 +44,12 @@ fn main() {
         println!("result: {:?} in {:?}", r.map_err(|f| (f.signature, f.message)), t0.elapsed());
         return;
     }
+    if args[1] == "fuzz-seeds-json" {
+        // vh fuzz-seeds-json <dir>: only the corpus of the json_schema target (the other directories hold
+        // hand-kept regression inputs as well and are not rewritten)
+        vh::props::c08::write_json_seeds(std::path::Path::new(&args[2]));
+        return;
+    }
     if args[1] == "fuzz-seeds" {
         // vh fuzz-seeds <dir>: writes the tracked starting corpus of the cargo-fuzz targets
         vh::props::c08::write_fuzz_seeds(std::path::Path::new(&args[2]));
